@@ -591,6 +591,12 @@ func (s *Sim) handler(h int) mqtt.Handler {
 		if slow > 0 && !s.race {
 			time.Sleep(time.Duration(slow) * time.Microsecond)
 		}
+		if h == 5 && s.retry != nil && !s.race {
+			// replaces itself from inside the callback
+			s.log(Rec{Kind: "reg", V: 6, S: "begin"})
+			s.retry.Handle(s.handler(6))
+			s.log(Rec{Kind: "reg", V: 6, S: "end"})
+		}
 		if h == 4 {
 			// the handler owns its message: it clears the identifier and rewrites
 			// the rest (as a handler does that publishes the message on), then
